@@ -620,11 +620,16 @@ class Engine:
         if size > 4096: return None
         for a in range(base, base + size):
             if a in st.mem: return None          # table was written by this path: not constant
-        r = None
-        for off in reversed(range(0, size - n + 1)):
-            v = int.from_bytes(bytes(s.gmem.get(base + off + i, 0) for i in range(n)), 'little')
-            v = mask(v, t.bits)
-            r = z3.BitVecVal(v, t.bits) if r is None else z3.If(p == base + off, z3.BitVecVal(v, t.bits), r)
+        vals = {}
+        for off in range(0, size - n + 1):
+            v = mask(int.from_bytes(bytes(s.gmem.get(base + off + i, 0) for i in range(n)), 'little'), t.bits)
+            vals.setdefault(v, []).append(off)
+        common = max(vals, key=lambda v: len(vals[v]))          # most frequent entry becomes the default of the ite chain
+        r = z3.BitVecVal(common, t.bits)
+        for v, offs in vals.items():
+            if v == common: continue
+            c = z3.Or(*[p == base + o for o in offs]) if len(offs) > 1 else (p == base + offs[0])
+            r = z3.If(c, z3.BitVecVal(v, t.bits), r)
         return simp(r)
 
     def load_typed(s, st, p, t):
